@@ -75,9 +75,9 @@ def capture(net, ac=True, **kw):
 
 
 def gen_net(rng, pwl=False, oos=0.15, gap=0.4, quad=True, ndc_max=2, q_cost=True, controllable_cols=False,
-            tight=False):
-    """returns net.  All numbers are dyadic (k/8 etc.)."""
-    net = pp.create_empty_network()
+            tight=False, sn_choices=(1.0,)):
+    """returns net.  All numbers are dyadic (k/8 etc.); net.sn_mva is drawn from sn_choices."""
+    net = pp.create_empty_network(sn_mva=float(rng.choice(list(sn_choices))))
     nb = rng.randint(2, 5)
     vmin, vmax = (0.95, 1.05) if tight else (0.9, 1.1)
     buses = [pp.create_bus(net, vn_kv=20.0, min_vm_pu=vmin, max_vm_pu=vmax) for _ in range(nb)]
@@ -130,7 +130,7 @@ def gen_net(rng, pwl=False, oos=0.15, gap=0.4, quad=True, ndc_max=2, q_cost=True
     if nb >= 2:
         for _ in range(rng.choice([0, 0, 1, ndc_max]) if ndc_max else 0):
             a, b = rng.sample(buses, 2)
-            pp.create_dcline(net, a, b, p_mw=rng.randint(1, 8) / 8, loss_percent=rng.choice([0.0, 0.0, 2.0, 5.0]),
+            pp.create_dcline(net, a, b, p_mw=rng.randint(1, 8) / 8 * (1 if rng.random() < 0.8 else -1), loss_percent=rng.choice([0.0, 0.0, 2.0, 5.0]),
                              loss_mw=rng.choice([0.0, 0.0, 0.0625]), vm_from_pu=1.0, vm_to_pu=1.0, max_p_mw=rng.randint(8, 16) / 8,
                              min_q_from_mvar=-0.5, max_q_from_mvar=0.5, min_q_to_mvar=-0.5, max_q_to_mvar=0.5,
                              in_service=ins())
@@ -150,7 +150,7 @@ def gen_net(rng, pwl=False, oos=0.15, gap=0.4, quad=True, ndc_max=2, q_cost=True
             continue
         as_pwl = pwl and (not both or rng.random() < 0.6)
         if as_pwl:
-            nseg = rng.choice([1, 1, 2, 3])
+            nseg = rng.choice([1, 2, 2, 3])
             lo = rng.choice([-2.0, 0.0, 0.0, 0.5])
             if et == "ext_grid":
                 lo = -50.0
